@@ -680,6 +680,11 @@ def norm_index(X, lst_n, idx, node, check=True):
 
 
 def get_item(X, cont, key, node):
+    h = getattr(X.spec, 'chain_getitem', None)
+    if h is not None:
+        r = h(X, cont, key, node)
+        if r is not None:
+            return r
     c = deref(cont)
     k = deref(key)
     if isinstance(c, TupV):
@@ -745,6 +750,9 @@ def get_item(X, cont, key, node):
 
 
 def set_item(X, cont, key, v, node):
+    h = getattr(X.spec, 'chain_setitem', None)
+    if h is not None and h(X, cont, key, v, node):
+        return
     c = deref(cont)
     k = deref(key)
     if isinstance(c, TupV) and c.is_list and isinstance(k, Con):
@@ -853,6 +861,11 @@ def set_slice(X, cont, sl, v, fr, node):
 
 
 def contains(X, cont, item, node):
+    h = getattr(X.spec, 'chain_contains', None)
+    if h is not None:
+        r = h(X, cont, item, node)
+        if r is not None:
+            return r
     c = deref(cont)
     it = deref(item)
     if isinstance(c, Con):
@@ -909,6 +922,9 @@ def contains(X, cont, item, node):
 
 def container_attr(X, obj, attr, node):
     from .exec import BoundMethod, Builtin
+    h0 = X.spec.container_attr_hook(X, obj, None, attr, node)
+    if h0 is not None:
+        return h0
     c = deref(obj)
     if isinstance(c, Con) and isinstance(c.v, str):
         return Builtin('str.' + attr, lambda X, a, k, n, c=c: str_method(X, c, attr, a, k, n))
@@ -1359,7 +1375,12 @@ def warn(X, args, kw, node):
     return NONE
 
 
+def chainmap_new(X, args, kw, node):
+    return TupV([a for a in args] or [Con({})], is_list=True)
+
+
 EXTERNALS = {
+    'collections.ChainMap': chainmap_new,
     'math.sqrt': m_sqrt, 'math.cos': m_cos, 'math.sin': m_sin, 'math.atan2': m_atan2,
     'math.radians': m_radians, 'math.tan': m_tan, 'operator.mul': op_mul,
     'warnings.warn': warn,
@@ -1433,6 +1454,10 @@ def symbolic_comprehension(X, node, fr, kind):
         vars_, guards = [], []
         for g in node.generators:
             it = deref(X.ev(g.iter, sub))
+            from .exec import ClassV as _ClassV
+            if isinstance(it, _ClassV) and it.qual in X.spec.class_by_qual:
+                # a repo class named in a spec quantifier: the sort of its instances
+                it = SortDomain(X.spec.class_by_qual[it.qual].sort)
             if isinstance(it, SortDomain):
                 v = z3.Const(g.target.id, it.sort)
                 vars_.append(v)
